@@ -13,7 +13,7 @@ ID = "C03"
 LEVEL = "exploration"
 RULE = ("(a) metamorphic: Hypothesis-generated sessions run once with whole reads and once with a generated read-fragmentation tape (1-byte reads, cuts at every header/payload "
         "offset, bounded runs of empty reads, cyclic and one-shot tapes): results, exception types and host packets must be identical, and at every bulk_read the requested size "
-        "must not exceed what remains of the packet in flight. (b) corruption: one device packet per case gets one payload byte or bit changed, or its header checksum field changed "
+        "must not exceed what remains of the packet in flight. (b) corruption: one device packet per case gets one payload byte or bit changed, or its header checksum field changed (or zeroed; payloads incl. all-NUL ones whose true checksum is 0) "
         "-> the running operation must raise InvalidChecksumError and the corrupted payload must not reach a result; or its command word replaced by a value outside the seven "
         "-> InvalidCommandError. (c, thorough) coverage-guided fuzzing (atheris) of connect() on raw inbound bytes against a reference parser. "
         "Non-trivial: >= 1 packet delivered in >= 2 reads (a), any corruption case (b). Distinct = case hash.")
@@ -70,7 +70,14 @@ def check_frag(case):
 def corrupt_cases(draw):
     case = draw(sc.session(max_ops=3, big=False, with_frag=True))
     case["device"]["dup_clse"] = False
-    case["transport"]["corrupt"] = {"k": draw(st.integers(0, 12)), "mode": draw(st.sampled_from(["byte", "bit", "hdr", "cmd", "cmd"])),
+    if draw(st.sampled_from([False, False, True])):
+        # payloads whose legitimate checksum is 0 (all NUL bytes)
+        sv = case["device"].get("services") or {}
+        for k in list(sv):
+            sv[k] = [b"\0" * len(c) for c in sv[k]]
+        for f in (case["device"].get("fs") or {}).values():
+            f["content"] = {"pat": b"\0", "n": f["content"]["n"]}
+    case["transport"]["corrupt"] = {"k": draw(st.integers(0, 12)), "mode": draw(st.sampled_from(["byte", "bit", "hdr", "hdr-zero", "cmd", "cmd"])),
                                     "pos": draw(st.integers(0, 5000)), "val": draw(st.one_of(st.integers(0, 2 ** 32 - 1), st.sampled_from([0, 0x4e584e42, 0x58585858, 0x45545258]))),
                                     "fix_magic": draw(st.booleans())}
     return case
